@@ -502,6 +502,9 @@ MagicFn(st0, k, nl) ==
   IF st1.stuck THEN st1
   ELSE IF k = "T" /\ nl > 0 THEN SetTop(st1, AppendNode(Top(st1), TemplateNL))
   ELSE IF k = "N" THEN TextFn([st1 EXCEPT !.bol = FALSE], <<"nowiki">>)   \* magic_fn cleared beginning_of_line
+  \* an empty payload: text_fn("") appends an empty string, which the merge of string children drops again -
+  \* the tree is unchanged (no empty string may survive: WellFormed), only beginning_of_line is cleared
+  ELSE IF k = "NE" THEN [st1 EXCEPT !.bol = FALSE]
   ELSE SetTop(st1, AppendNode(Top(st1), MagicLeaf(k)))
 MagicWordFn(st0) ==
   LET st1 == CloseBeglineLists(st0) IN
@@ -536,13 +539,15 @@ TokAtoms(tok) ==
     [] tok.k = "TAG" -> <<tok.txt>>
     [] tok.k = "MTS" -> <<"{", "|", "|">>
     [] tok.k = "MAGIC" -> (IF tok.m = "N" THEN <<"nowiki">>
+                           ELSE IF tok.m = "NE" THEN <<>>
                            ELSE IF NewLines(tok) > 0 THEN <<"magicTN">> ELSE <<"magic" \o tok.m>>)
     [] tok.k = "MW"  -> <<"__NOTOC__">>
     [] tok.k = "URL" -> <<"url">>
 
 Handle(st, tok) ==
   IF Top(st).kind = "PRE" /\ ~(tok.k = "TAG" /\ tok.close /\ tok.name = "pre")
-  THEN TextFn(st, TokAtoms(tok))        \* process_text: inside <pre> everything is text
+  THEN IF TokAtoms(tok) = <<>> THEN st ELSE
+       TextFn(st, TokAtoms(tok))        \* process_text: inside <pre> everything is text
   ELSE CASE tok.k \in {"TXT", "SP", "NL"} -> TextFn(st, TokAtoms(tok))
          [] tok.k = "HS"  -> SubtitleStart(st, tok.l)
          [] tok.k = "HE"  -> SubtitleEnd(st, tok.l)
@@ -626,6 +631,7 @@ FixedTok(c) ==
     [] c = "ML"    -> [k |-> "MAGIC", m |-> "L"]
     [] c = "ME"    -> [k |-> "MAGIC", m |-> "E"]
     [] c = "MN"    -> [k |-> "MAGIC", m |-> "N"]
+    [] c = "MNE"   -> [k |-> "MAGIC", m |-> "NE"]               \* <nowiki></nowiki>: a nowiki cookie with an empty payload
     [] c = "FIL"   -> [k |-> "MAGIC", m |-> "F"]
     [] c = "MW"    -> [k |-> "MW"]
     [] c = "URL"   -> [k |-> "URL"]
